@@ -141,10 +141,12 @@ const profilesEnumNumber = `{"resourceProfiles":[{"resource":{},"scopeProfiles":
 
 func TestRepairedDefects(t *testing.T) {
 	defer cReg.Flush()
-	if vt.ReplayPath() != "" {
-		t.Skip("replay mode")
+	if vt.ReplayPath() != "" && vt.ReplayCheck() != "repaired-defects-regression" {
+		t.Skip("replay file is for another check")
 	}
-	if sh := os.Getenv("VT_SHARD"); sh != "" && sh != "0" {
+	// (a replay of one of this check's own dumps simply re-runs the whole deterministic sweep: some cases,
+	// e.g. the setter-level empty-Bytes one, cannot be rebuilt from a serialised script)
+	if sh := os.Getenv("VT_SHARD"); sh != "" && sh != "0" && vt.ReplayPath() == "" {
 		t.Skip("deterministic: runs on shard 0 only")
 	}
 	outDir := os.Getenv("C08_WRITE_REPLAYS")
